@@ -1235,6 +1235,17 @@ class Terms(object):
             if idx == ("index", base):
                 # x[k] with k the position of an element of x
                 return ("elem", base)
+            pb_ = base[2] if base[0] == "new" else base
+            if idx[0] == "slice" and idx[2] == ("const", None) and \
+                    idx[3] == ("const", None) and pb_[0] == "call" and \
+                    pb_[1] == ("global", "list") and len(pb_[2]) == 1 and \
+                    not pb_[3] and pb_[2][0][0] == "call" and \
+                    pb_[2][0][1] == ("global", "zip") and \
+                    not pb_[2][0][3] and _nonneg_size(idx[1]):
+                # list(zip(a, b))[k:] pairs up a[k:] with b[k:]
+                return ("call", ("global", "list"), ((
+                    "call", ("global", "zip"), tuple(
+                        ("item", x, idx) for x in pb_[2][0][2]), ()),), ())
             if idx[0] == "slice" and idx[1] == ("const", None) and \
                     idx[3] == ("const", None) and \
                     idx[2] == ("call", ("global", "len"), (base,), ()):
@@ -1542,6 +1553,21 @@ class Terms(object):
             env2["__map_elem__"] = self._tag(e.args[1], self._elem(args[1]))
             return ("genexp", self._call(synth, node, env2),
                     ((args[1], ()),))
+        # any(f(v) for v in (a, b, c)) over a display is f(a) or f(b) or
+        # f(c); all(...) the conjunction
+        if ft in (("global", "any"), ("global", "all")) and \
+                len(args) == 1 and not kws and args[0][0] == "genexp" and \
+                len(args[0][2]) == 1 and not args[0][2][0][1]:
+            it_ = args[0][2][0][0]
+            disp = it_[2] if it_[0] == "new" else it_
+            if disp[0] in ("tuple", "list") and 2 <= len(disp) <= 9:
+                el_ = self._elem(it_)
+                parts = []
+                for x in disp[1:]:
+                    parts.append(_subst_term(args[0][1], el_, x))
+                if all(el_ not in list(subterms(p_)) for p_ in parts):
+                    return ("or" if ft[1] == "any" else "and",) + \
+                        tuple(parts)
         if ft in (("global", "list"), ("global", "set")) and \
                 len(args) == 1 and not kws and args[0][0] == "genexp":
             return ("listcomp" if ft[1] == "list" else "setcomp",) + \
@@ -1875,6 +1901,32 @@ def _owner(n, fn):
     return p is fn
 
 
+def _nonneg_size(t):
+    """A sum / product of non-negative integer constants and lengths."""
+    if t[0] == "const":
+        return isinstance(t[1], int) and not isinstance(t[1], bool) and \
+            t[1] >= 0
+    if t[0] == "call" and t[1] == ("global", "len"):
+        return True
+    if t[0] == "binop" and t[1] in ("Add", "Mult"):
+        return _nonneg_size(t[2]) and _nonneg_size(t[3])
+    return False
+
+
+def _subst_term(t, old, new):
+    if t == old:
+        return new
+    if not isinstance(t, tuple) or not t or t[0] == "const":
+        return t
+    out = tuple(_subst_term(x, old, new) if isinstance(x, tuple) else x
+                for x in t)
+    # the operands of a symmetric comparison are kept in canonical order
+    if out and out[0] == "cmp" and len(out) == 4 and out[1] in _SYMM and \
+            _key(out[3]) < _key(out[2]):
+        out = ("cmp", out[1], out[3], out[2])
+    return out
+
+
 def subst_params(t, sub):
     if not isinstance(t, tuple):
         return t
@@ -2187,9 +2239,13 @@ def chunked(rec, DATA, size, const):
         if DATA not in alts or len(rest) != 1:
             return False
         r = rest[0]
-        return r[0] == "item" and r[2][0] == "slice" and \
-            const(r[2][1]) == size and r[2][2] == none and \
-            r[2][3] == none and r[1] == base
+        # the tail x[size:], or x[len(x[:size]):] (the same bytes: when the
+        # head is short, both tails are empty)
+        head_len = ("call", ("global", "len"),
+                    (("item", base, ("slice", lo, hi, st)),), ())
+        return r[0] == "item" and r[2][0] == "slice" and (
+            const(r[2][1]) == size or plain(r[2][1]) == plain(head_len)) \
+            and r[2][2] == none and r[2][3] == none and r[1] == base
     if base == DATA and lo[0] == "elem":
         m = match(("call", ("global", "range"), (V("a"), V("b"), V("c")), ()),
                   lo[1])
@@ -2381,6 +2437,13 @@ def layers(T, d):
     def src(x):
         if x[0] == "items":
             return x[1]
+        # the pairs listed first: list(zip(a, b)) / tuple(zip(a, b))
+        px = x[2] if x[0] == "new" else x
+        if px[0] == "call" and px[1] in (("global", "list"),
+                                         ("global", "tuple")) and \
+                len(px[2]) == 1 and not px[3] and px[2][0][0] == "call" and \
+                px[2][0][1] == ("global", "zip"):
+            x = px[2][0]
         if x[0] == "call" and x[1] == ("global", "zip") and len(x[2]) == 2 \
                 and not x[3]:
             return ("zip",) + tuple(x[2])
